@@ -15,6 +15,7 @@ import (
 
 	"github.com/jsightapi/jsight-api-go-library/catalog"
 	"github.com/jsightapi/jsight-api-go-library/core"
+	"github.com/jsightapi/jsight-api-go-library/directive"
 )
 
 func validate(name string, content []byte) string {
@@ -27,6 +28,13 @@ func validate(name string, content []byte) string {
 		return "json error: " + err.Error()
 	}
 	return string(b)
+}
+
+func head(s string) string {
+	if len(s) > 120 {
+		return s[:120]
+	}
+	return s
 }
 
 func main() {
@@ -231,6 +239,56 @@ func main() {
 				}()
 			}
 			wg.Wait()
+		}
+	}
+	// 3. Option VALUES shared between projects: one option value given to many cores, alone and together with another
+	// one, all at the same time; every result equals the result obtained alone with freshly made options
+	{
+		macroDoc := []byte("JSIGHT 0.3\nGET /cats\n  PASTE @ok\nMACRO @ok\n  200 any\n")
+		plainDoc := []byte("JSIGHT 0.3\nGET /dogs\n  200 any\n")
+		with := func(content []byte, oo ...core.Option) string {
+			c := core.NewJApiCore(fs.NewFile("shared.jst", content), append(oo, core.WithFixedSeedForRegex())...)
+			if je := c.ValidateJAPI(); je != nil {
+				return "rejected: " + je.Error()
+			}
+			b, _ := c.Catalog().ToJson()
+			return string(b)
+		}
+		soloTrustedMacro := with(macroDoc, core.WithBannedDirectives(directive.Include))
+		soloTrustedPlain := with(plainDoc, core.WithBannedDirectives(directive.Include))
+		soloSandboxMacro := with(macroDoc, core.WithBannedDirectives(directive.Include), core.WithBannedDirectives(directive.Macro, directive.Paste))
+		soloSandboxPlain := with(plainDoc, core.WithBannedDirectives(directive.Include), core.WithBannedDirectives(directive.Macro, directive.Paste))
+		for r := 0; r < rounds; r++ {
+			noInclude := core.WithBannedDirectives(directive.Include)
+			noMacros := core.WithBannedDirectives(directive.Macro, directive.Paste)
+			var wg sync.WaitGroup
+			for g := 0; g < 32; g++ {
+				wg.Add(1)
+				go func(g int) {
+					defer wg.Done()
+					var got, want string
+					switch g % 4 {
+					case 0:
+						got, want = with(macroDoc, noInclude, noMacros), soloSandboxMacro
+					case 1:
+						got, want = with(macroDoc, noInclude), soloTrustedMacro
+					case 2:
+						got, want = with(plainDoc, noInclude, noMacros), soloSandboxPlain
+					default:
+						got, want = with(plainDoc, noInclude), soloTrustedPlain
+					}
+					if got != want {
+						fmt.Println("FAIL project", g, "made with shared option values differs from the same project alone with fresh options:", head(got))
+						failed = true
+					}
+				}(g)
+			}
+			wg.Wait()
+			// and afterwards, alone again
+			if got := with(macroDoc, noInclude); got != soloTrustedMacro {
+				fmt.Println("FAIL an option value was changed by its use together with another one:", head(got))
+				failed = true
+			}
 		}
 	}
 	if failed {
